@@ -368,11 +368,14 @@ pub fn run(cfg: &Cfg) -> Report {
     rep.merge(par_cases(cfg, "tables.random", n_random, |cx| {
         let kind = kinds[(cx.idx % kinds.len() as u64) as usize];
         let mut r = cx.rng.clone();
-        let mo = if cx.idx % 97 == 0 { max_ops * 5 } else { max_ops };
+        let mo = if cx.cfg.mini { 12 } else if cx.idx % 97 == 0 { max_ops * 5 } else { max_ops };
         let p = gen_prog(kind, &mut r, mo);
         run_prog(cx, &p, 1);
     }));
 
+    if cfg.mini {
+        return rep; // the long sweeps are not part of the miniature (Miri) workload
+    }
     // 2. sweeps across 255->256 entries and the 0xFF / 0xFFFF length carries
     //    variants per kind: pure smallest-entry, mixed
     let n_sweep = sweep_kinds.len() as u64 * 2;
